@@ -87,7 +87,7 @@ def gen_program(rng, seed):
         lines.append("SETRF(R2, {})".format(rng.choice([-1, 0, 65535, -32768, 300])))
         lines.append("print(\"x\")")
         return "\n".join(lines) + "\n", "data"
-    text, feats = proggen.generate(seed, wild=(rng.random() < 0.2), strings_wide=True, size=rng.choice([4, 8, 14]))
+    text, feats = proggen.generate(seed, wild=(rng.random() < 0.2), strings_wide=True, size=rng.choice([4, 8, 14]), same_line=True)
     return text, "prog"
 
 
@@ -166,8 +166,12 @@ def check(seed, n):
 # string literal writer / reader vs the Lean model
 
 def real_write(s):
+    """the string literal as listings print it: through the operation's own __str__"""
     import hera.op as O
-    return O.string_to_literal(s)
+    from hera.data import Token
+    text = str(O.name_to_class["LP_STRING"](Token(Token.STRING, s)))
+    assert text.startswith("LP_STRING(") and text.endswith(")")
+    return text[len("LP_STRING("):-1]
 
 
 def check_strings(seed, n):
